@@ -91,3 +91,23 @@ Theorem C03_trees_lines : forall st s,
   negb (mapped_chunk_exists (fst (fst (stream st s (mkOpts false false))))).
 Proof. exact LinesTree.C03_tree_lines. Qed.
 Print Assumptions C03_trees_lines.
+
+(* (vi) trees WITH CachedSource nodes, first observation of a freshly built tree (all caches cold,
+   every cache used once): the tree answers exactly as the same tree without the wrappers ... *)
+From RS Require Proofs.ColdCache Proofs.ColdCacheTree.
+Theorem C03_cold_caches_vanish : forall s o c, ColdCache.ids_distinct s ->
+  fst (stream [] s o) = fst (stream [] (ColdCache.uncache s) o) /\
+  fst (map_of [] s c) = fst (map_of [] (ColdCache.uncache s) c).
+Proof. intros s o c H. exact (conj (ColdCache.fresh_stream_uncache s o H) (ColdCache.fresh_map_uncache s c H)). Qed.
+Print Assumptions C03_cold_caches_vanish.
+
+(* ... hence the property for them, both column settings (root below the wrappers: Concat, Original
+   or Replace with replacements, whose map() streams) *)
+Theorem C03_trees_with_cold_caches : forall s, ColdCache.ids_distinct s ->
+  RStreamTree.rshape (ColdCache.uncache s) = true -> treeA s = true -> rsmall (ColdCache.uncache s) = true ->
+  forall c, ColdCacheTree.streams_map (ColdCache.uncache s) = true ->
+  forallb mapping_small (chunk_mappings (fst (fst (stream [] s (mkOpts c true))))) = true ->
+  attr_of_map (fst (map_of [] s c)) (source s) c = attr_of_stream (fst (fst (stream [] s (mkOpts c false)))) c /\
+  is_none (fst (map_of [] s c)) = negb (mapped_chunk_exists (fst (fst (stream [] s (mkOpts c false))))).
+Proof. exact ColdCacheTree.fresh_C03_map. Qed.
+Print Assumptions C03_trees_with_cold_caches.
